@@ -1336,6 +1336,26 @@ fn line_char_to_offset(src: &str, line: usize, character: usize) -> usize {
     offset
 }
 
+/// Verification hook: expose `offset_to_lsp_position`.
+#[cfg(wilfred_garden_verif)]
+pub(crate) fn verif_offset_to_lsp_position(src: &str, offset: usize, line: usize) -> (u32, u32) {
+    let p = offset_to_lsp_position(src, offset, line);
+    (p.line, p.character)
+}
+
+/// Verification hook: expose `line_char_to_offset`.
+#[cfg(wilfred_garden_verif)]
+pub(crate) fn verif_line_char_to_offset(src: &str, line: usize, character: usize) -> usize {
+    line_char_to_offset(src, line, character)
+}
+
+/// Verification hook: expose `whole_document_range`.
+#[cfg(wilfred_garden_verif)]
+pub(crate) fn verif_whole_document_range(src: &str) -> (u32, u32, u32, u32) {
+    let r = whole_document_range(src);
+    (r.start.line, r.start.character, r.end.line, r.end.character)
+}
+
 /// Serialize a response and append it to the outgoing messages.
 fn push_response<T: Serialize>(
     outgoing: &mut Vec<serde_json::Value>,
